@@ -992,3 +992,33 @@ theorem fixed_value_exactLib (v : ℚ) (hv : v ≠ 0) (hvlo : (10 : ℚ) ^ (-300
   rwa [abs_abs] at this
 
 end C16
+
+namespace C16
+open Format
+
+/-- **exponential branch**: the mantissa and exponent that `format(x, ".{s−1}e")` prints denote `|v|` to `s`
+significant digits -/
+theorem exp_digits_error (v : ℚ) (hv : v ≠ 0) (s : ℤ) (hs : 1 ≤ s) :
+    abs (((expDigits v (s - 1).toNat).1 : ℚ) * (10 : ℚ) ^ ((expDigits v (s - 1).toNat).2 - ((s - 1).toNat : ℤ)) - abs v)
+      ≤ 1 / 2 * (10 : ℚ) ^ (1 - s) * abs v := by
+  have hp : (((s - 1).toNat : ℕ) : ℤ) = s - 1 := Int.toNat_of_nonneg (by omega)
+  rw [expDigits_value]
+  have hvpos : 0 < |v| := abs_pos.mpr hv
+  have hnn : 0 ≤ rheInt (|v| * (10 : ℚ) ^ (((s - 1).toNat : ℤ) - Int.log 10 |v|)) :=
+    rheInt_nonneg (mul_nonneg hvpos.le (pow10_pos _).le)
+  have hcast : (((rheInt (|v| * (10 : ℚ) ^ (((s - 1).toNat : ℤ) - Int.log 10 |v|))).toNat : ℕ) : ℚ)
+      = ((rheInt (|v| * (10 : ℚ) ^ (((s - 1).toNat : ℤ) - Int.log 10 |v|)) : ℤ) : ℚ) := by
+    have := Int.toNat_of_nonneg hnn
+    exact_mod_cast this
+  rw [hcast]
+  have hval : ((rheInt (|v| * (10 : ℚ) ^ (((s - 1).toNat : ℤ) - Int.log 10 |v|)) : ℤ) : ℚ)
+      * (10 : ℚ) ^ (Int.log 10 |v| - ((s - 1).toNat : ℤ)) = rhe |v| (s - 1 - Int.log 10 |v|) := by
+    unfold rhe
+    rw [hp, div_eq_mul_inv, ← zpow_neg]
+    congr 2
+    ring
+  rw [hval]
+  have := exp_sig_error |v| (abs_ne_zero.mpr hv) s
+  rwa [abs_abs] at this
+
+end C16
